@@ -1,7 +1,7 @@
 // module aliases so that paths like `fixed_point::search` or `supply::Dedicated` in the extracted code resolve
 // inside the single-file unit exactly as `crate::fixed_point::search` does in the crate
 verus! {
-pub mod fixed_point { pub use super::{search, search_with_offset, SearchResult, SearchFailure}; }
+pub mod fixed_point { pub use super::{search, search_with_offset, max_response_time, SearchResult, SearchFailure}; }
 pub mod supply { pub use super::{Dedicated, Constrained, SupplyBound}; pub use super::SupplyPeriodic as Periodic; }
 pub mod demand { pub use super::{RBF, Aggregate, Slice, RequestBound}; }
 pub mod wcet { pub use super::{Scalar, JobCostModel}; }
